@@ -9,6 +9,7 @@ import (
 	"github.com/taurusgroup/multi-party-sig/verifharness/adv"
 	"github.com/taurusgroup/multi-party-sig/verifharness/advrun"
 	"github.com/taurusgroup/multi-party-sig/verifharness/ev"
+	"github.com/taurusgroup/multi-party-sig/verifharness/mut"
 	"github.com/taurusgroup/multi-party-sig/verifharness/pbt"
 	"github.com/taurusgroup/multi-party-sig/verifharness/proto"
 	"github.com/taurusgroup/multi-party-sig/verifharness/sim"
@@ -52,6 +53,9 @@ func run(c Case) *pbt.Fail {
 			return nil
 		}
 		what = fmt.Sprintf("r%d|bc=%v|%s|%s|%s", c.Tamper.Round, c.Tamper.Broadcast, rep.Applied.Generic, rep.Applied.LeafKind, c.Tamper.Kind)
+		if c.Tamper.Early {
+			what += "+early"
+		}
 	} else if rep.DevHits == 0 {
 		last = "not-applied"
 		return nil
@@ -120,6 +124,9 @@ func gen(t *rapid.T, protos []string, maxN int) (Case, bool) {
 			c.Setup.T = rapid.IntRange(0, c.Setup.N-1).Draw(t, "t")
 		}
 	}
+	if strings.Contains(p, "sign") && p != proto.CMPPresign {
+		c.Setup.MsgLen = rapid.SampledFrom([]int{0, 0, 0, 20, 33, 64}).Draw(t, "msgLen")
+	}
 	c.Cheater = rapid.IntRange(0, c.Setup.N-1).Draw(t, "cheater")
 	c.DropAbort = rapid.Bool().Draw(t, "dropAbort")
 	c.Sched = rapid.SliceOfN(rapid.IntRange(0, 4095), 0, 30).Draw(t, "sched")
@@ -144,9 +151,25 @@ func gen(t *rapid.T, protos []string, maxN int) (Case, bool) {
 	if len(ss) == 0 {
 		return c, false
 	}
-	s := ss[rapid.IntRange(0, len(ss)-1).Draw(t, "slot")]
+	// two-stage choice: first the message field (array positions collapsed), then one occurrence of it; a uniform choice over
+	// all leaves would spend almost every case on the hundreds of entries of the OT matrices
+	var fields []string
+	byField := map[string][]slot{}
+	for _, sl := range ss {
+		k := fmt.Sprintf("%d|%v|%s|%s", sl.Round, sl.Broadcast, sl.To, mut.Generic(sl.Path))
+		if _, ok := byField[k]; !ok {
+			fields = append(fields, k)
+		}
+		byField[k] = append(byField[k], sl)
+	}
+	group := byField[fields[rapid.IntRange(0, len(fields)-1).Draw(t, "field")]]
+	s := group[rapid.IntRange(0, len(group)-1).Draw(t, "slot")]
 	kind := rapid.SampledFrom([]string{"value", "value", "copy-other-recipient", "copy-other-sender", "substitute-other-recipient", "substitute-other-round"}).Draw(t, "kind")
 	c.Tamper = &adv.Tamper{Round: s.Round, Broadcast: s.Broadcast, To: s.To, Path: s.Path, Kind: kind, Variant: rapid.IntRange(0, 5).Draw(t, "variant")}
+	if s.Round >= 3 && (kind == "value" || kind == "copy-other-sender") {
+		// the altered message may also arrive ahead of its round (it is then queued and verified when the round is reached)
+		c.Tamper.Early = rapid.IntRange(0, 3).Draw(t, "early") == 0
+	}
 	return c, true
 }
 
@@ -179,12 +202,16 @@ func TestWalk(t *testing.T) {
 			s := advrun.Setup{Proto: p, N: n, T: n - 1, Seed: 1}
 			for cheater := 0; cheater < n; cheater++ {
 				for _, sl := range slots(s, cheater) {
-					for _, kind := range []string{"value", "copy-other-sender"} {
+					for _, kind := range []string{"value", "copy-other-sender", "value+early"} {
+						early := strings.HasSuffix(kind, "+early")
+						if early && sl.Round < 3 {
+							continue
+						}
 						i++
 						if !rec.Mine(i) {
 							continue
 						}
-						prop.One(t, Case{Setup: s, Cheater: cheater, Tamper: &adv.Tamper{Round: sl.Round, Broadcast: sl.Broadcast, To: sl.To, Path: sl.Path, Kind: kind, Variant: i}})
+						prop.One(t, Case{Setup: s, Cheater: cheater, Tamper: &adv.Tamper{Round: sl.Round, Broadcast: sl.Broadcast, To: sl.To, Path: sl.Path, Kind: strings.TrimSuffix(kind, "+early"), Variant: i, Early: early}})
 					}
 				}
 			}
